@@ -188,3 +188,55 @@ func TestC05Exhaustive(t *testing.T) {
 	run.Extra("exhaustive_max_preemptions", maxK)
 	run.SetExhaustive(true)
 }
+
+// ---- large graphs --------------------------------------------------------------------------------
+//
+// The statement has no size bound: rings, chains and chains that end in a ring of hundreds to a few
+// thousand targets, free-running on all CPUs of the shard.
+
+type LargeCase struct {
+	Shape string `json:"shape"` // "ring" | "chain" | "chain-into-ring" | "ring-with-tails"
+	N     int    `json:"n"`
+}
+
+func (lc LargeCase) graph() rungraph.Case {
+	n := lc.N
+	nodes := make([]rungraph.Node, n)
+	switch lc.Shape {
+	case "ring":
+		for i := range nodes {
+			nodes[i].Reqs = [][]int{{(i + 1) % n}}
+		}
+	case "chain":
+		for i := 0; i < n-1; i++ {
+			nodes[i].Reqs = [][]int{{i + 1}}
+		}
+	case "chain-into-ring":
+		// the first third is a chain, the rest a ring that the chain enters
+		k := n / 3
+		for i := range nodes {
+			next := i + 1
+			if next == n {
+				next = k
+			}
+			nodes[i].Reqs = [][]int{{next}}
+		}
+	default: // ring-with-tails: every ring member also depends on a private leaf
+		h := n / 2
+		for i := 0; i < h; i++ {
+			nodes[i].Reqs = [][]int{{(i + 1) % h, h + i}}
+		}
+	}
+	return rungraph.Case{Nodes: nodes, Root: 0, Pol: cosched.Policy{Mode: "jitter", MaxSteps: 4*n*n + 400000}}
+}
+
+func TestC05Large(t *testing.T) {
+	ev.Explore(run, t, "large", run.N(6, 60), func(rt *rapid.T) LargeCase {
+		return LargeCase{Shape: rapid.SampledFrom([]string{"ring", "chain-into-ring", "chain", "ring-with-tails"}).Draw(rt, "shape"),
+			N: rapid.SampledFrom([]int{1500, 300, 2600, 700, 1100}).Draw(rt, "n")}
+	}, func(lc LargeCase) ev.Verdict {
+		v := exec(lc.graph())
+		v.Classes = append(v.Classes, fmt.Sprintf("large:%s", lc.Shape))
+		return v
+	})
+}
